@@ -640,7 +640,29 @@ def round_trip(ctx, rule="R18.9"):
     ctx.floor(rule, "normalize / denormalize branch pairs composed", n, 16)
 
 
+def get_mean_pipeline(ctx, rule="R18.10"):
+    """Krige.get_mean applies the output pipeline to the (estimated or given) mean: without post-processing it returns the raw value,
+    with post-processing `normalizer.denormalize(raw + mean)` - the mean is added BEFORE the back-transformation, on every path
+    (ordinary and simple kriging alike)."""
+    from ..small import UnrollError, merge_cases, return_cases
+
+    fn = ctx.prog.func("krige/base.py", "Krige.get_mean")
+    try:
+        table = merge_cases(return_cases(fn, opaque=("res", "mean")))
+    except UnrollError as e:
+        raise AnalysisError("Krige.get_mean is not a decision table: %s" % e)
+    vals = {}
+    for conds, txt in table:
+        if txt == "None":
+            continue
+        key = "post" if "post_process" in conds else ("raw" if "not post_process" in conds else "?")
+        vals.setdefault(key, set()).add(txt)
+    ok = vals.get("post") == {"self.normalizer.denormalize(res + mean)"} and vals.get("raw") == {"res"} and "?" not in vals
+    ctx.check(ok, rule, "krige/base.py::Krige.get_mean", "post-processed mean = denormalize(raw + mean), otherwise the raw value, on every path: %s" % {k: sorted(v) for k, v in vals.items()}, "get-mean")
+
+
 def run(ctx):
+    get_mean_pipeline(ctx)
     round_trip(ctx)
     derivative_is_derivative(ctx)
     from ..small import none_default_rule
